@@ -270,8 +270,21 @@ pub fn gen_hostile(a: &mut Arena, rng: &mut Rng) -> Option<Hostile> {
             r.ensure_id();
             r.as_json()
         };
-        let k = rng.below(16);
+        // a rumor that is VALID in every respect (author = the attacker itself, id = hash of the
+        // fields) but whose fields sit at the edges of their types - what a storage layer may choke on
+        let valid_extreme = |pk: nostr::PublicKey, created: u64, kind: u16, content: &str| -> String {
+            let mut r: UnsignedEvent = EventBuilder::new(Kind::Custom(kind), content).custom_created_at(Timestamp::from(created)).build(pk);
+            r.ensure_id();
+            r.as_json()
+        };
+        let k = rng.below(22);
         let (label, plain): (&str, Vec<u8>) = match k {
+            16 => ("valid-rumor-created_at=2^63-1", valid_extreme(apk, i64::MAX as u64, 9, "edge").into_bytes()),
+            17 => ("valid-rumor-created_at=2^63", valid_extreme(apk, 1u64 << 63, 9, "edge").into_bytes()),
+            18 => ("valid-rumor-created_at=u64max", valid_extreme(apk, u64::MAX, 9, "edge").into_bytes()),
+            19 => ("valid-rumor-created_at=0", valid_extreme(apk, 0, 9, "edge").into_bytes()),
+            20 => ("valid-rumor-kind=65535", valid_extreme(apk, ts, 65535, "edge").into_bytes()),
+            21 => ("valid-rumor-content-empty", valid_extreme(apk, ts, 9, "").into_bytes()),
             0 => ("random-bytes", {
                 let n = 1 + rng.below(300);
                 rng.vec(n)
